@@ -592,6 +592,7 @@ type FuncContract struct {
 	Loops      map[int]*LoopSpec
 	Covers     []*Clause
 	Cuts       []*CutSpec
+	GhostSets  []*GhostSet // ghost assignments executed at every return, before the postconditions are checked
 	Uses       []*Clause // lemma instantiations assumed at every return
 	Callbacks  []string // function-typed parameters whose calls have no modelled effect (assumption)
 	File       string
@@ -607,6 +608,13 @@ type CutSpec struct {
 	Callee     string
 	N          int
 	Invariants []*Clause
+}
+
+// GhostSet: `ghostset target = expr` -- ghost state has no code; this is its assignment.
+type GhostSet struct {
+	Target Expr
+	Value  Expr
+	Line   int
 }
 
 type StructClause struct {
@@ -691,7 +699,7 @@ type GuardSpec struct {
 var clauseKeywords = map[string]bool{
 	"func": true, "props": true, "trusted": true, "pure": true, "ghost": true, "requires": true, "ensures": true,
 	"assigns": true, "may_panic": true, "loop": true, "axiom": true, "lemma": true, "ghostfield": true, "cover": true,
-	"writers": true, "use": true, "callback": true, "cut": true, "structural": true, "inline": true, "guarded_by": true, "hint": true, "spec": true, "globalinv": true,
+	"ghostset": true, "writers": true, "use": true, "callback": true, "cut": true, "structural": true, "inline": true, "guarded_by": true, "hint": true, "spec": true, "globalinv": true,
 }
 
 // splitLabel parses an optional "[P1,P2:label]" prefix.
@@ -887,6 +895,20 @@ func ParseFile(path string) (*File, error) {
 				}
 				cur.Assigns = append(cur.Assigns, es...)
 			}
+		case "ghostset":
+			eq := strings.Index(rest, " = ")
+			if eq < 0 {
+				return nil, fmt.Errorf("%s:%d: ghostset needs 'target = expr'", path, rl.line)
+			}
+			te, err := ParseExpr(rest[:eq])
+			if err != nil {
+				return nil, fmt.Errorf("%s:%d: %v", path, rl.line, err)
+			}
+			ve, err := ParseExpr(rest[eq+3:])
+			if err != nil {
+				return nil, fmt.Errorf("%s:%d: %v", path, rl.line, err)
+			}
+			cur.GhostSets = append(cur.GhostSets, &GhostSet{Target: te, Value: ve, Line: rl.line})
 		case "writers":
 			// writers [props:label] Type fields f1,f2 only fn1,fn2
 			props, label, r := splitLabel(rest)
